@@ -908,3 +908,102 @@ Section AccessR.
       + apply Forall_aset_key; [exact F2|]. cbn [fst snd]. congruence.
   Qed.
 End AccessR.
+
+(** ** Which keys the trie accepts
+
+    [accept steps] reads the outcome of [insert] off the way the key is cut,
+    for EVERY key (any number of regex segments, malformed ones included): the
+    key is refused ([Failed], [AddRoute] for the router, no state change)
+    exactly when a cut is malformed ([KBad]: trailing '/' that does not close
+    a [/regex/] segment preceded by '.' or starting the name), a label is empty
+    (the cut runs out before a final segment: leading '.', [./re/...]), or a
+    regex that is not stored yet does not compile. *)
+Section Accept.
+  Variable V : Type.
+  Variable re_ok : bytes -> bool.
+
+  Fixpoint accept (steps : list kstep) : bool :=
+    match steps with
+    | [] => false
+    | KBad :: _ => false
+    | KStar :: _ => true
+    | KLab _ true :: _ => true
+    | KLab _ false :: rest => accept rest
+    | KRe src true :: _ => re_ok src
+    | KRe src false :: rest => re_ok src && accept rest
+    end.
+
+  Definition failed (r : ires) : bool := match r with IFailed => true | _ => false end.
+
+  (** an acceptable key is never refused, whatever the trie holds *)
+  Lemma accept_not_failed steps : forall (t : trie V) key v,
+      accept steps = true -> failed (snd (insert_w re_ok t steps key v)) = false.
+  Proof.
+    induction steps as [|st steps IH]; intros [kv w ch rx] key v A; [discriminate|].
+    destruct st as [| |src pos0|s fin]; cbn [accept] in A; cbn [insert_w].
+    - destruct (is_some (aget [STAR] ch)); [reflexivity|]. destruct (is_some w); reflexivity.
+    - discriminate.
+    - destruct (aget src rx) as [sub|].
+      + destruct pos0.
+        * destruct (is_some (t_kv sub)); reflexivity.
+        * apply andb_true_iff in A. destruct A as [_ A]. specialize (IH sub key v A).
+          destruct (insert_w re_ok sub steps key v) as [sub' r]. exact IH.
+      + destruct pos0.
+        * rewrite A. reflexivity.
+        * apply andb_true_iff in A. destruct A as [A1 A2]. rewrite A1.
+          specialize (IH root key v A2). destruct (insert_w re_ok root steps key v) as [sub' r]. cbn [snd] in IH.
+          destruct r; cbn [ires_ok snd]; try reflexivity; discriminate.
+    - destruct fin.
+      + destruct (is_some (aget s ch)); reflexivity.
+      + destruct (aget s ch) as [c|].
+        * specialize (IH c key v A). destruct (insert_w re_ok c steps key v) as [c' r]. exact IH.
+        * specialize (IH root key v A). destruct (insert_w re_ok root steps key v) as [c' r]. cbn [snd] in IH.
+          destruct r; cbn [ires_ok snd]; try reflexivity; discriminate.
+  Qed.
+
+  (** on an empty trie a key is refused exactly when it is not acceptable, and
+      a refused insert leaves the trie untouched *)
+  Lemma insert_root_failed_iff steps key v :
+    failed (snd (insert_w re_ok (root : trie V) steps key v)) = negb (accept steps).
+  Proof.
+    revert key v. induction steps as [|st steps IH]; intros key v; [reflexivity|].
+    destruct st as [| |src pos0|s fin]; cbn [accept]; cbn [insert_w root aget is_some]; try reflexivity.
+    - destruct pos0.
+      + destruct (re_ok src); reflexivity.
+      + destruct (re_ok src); cbn [andb]; [|reflexivity].
+        specialize (IH key v). destruct (insert_w re_ok root steps key v) as [sub' r]. cbn [snd] in IH.
+        destruct r; cbn [ires_ok snd failed] in *; congruence.
+    - destruct fin; [reflexivity|].
+      specialize (IH key v). destruct (insert_w re_ok root steps key v) as [c' r]. cbn [snd] in IH.
+      destruct r; cbn [ires_ok snd failed] in *; congruence.
+  Qed.
+
+  (** key level: [insert] never changes the trie when it answers [Failed], and
+      on an empty trie it answers [Failed] exactly for the empty name, "." and
+      the names whose cut is not acceptable *)
+  Lemma insert_failed_unchanged (t : trie V) key v :
+    failed (snd (insert re_ok t key v)) = true -> fst (insert re_ok t key v) = t.
+  Proof.
+    unfold insert. destruct (is_nil key); [reflexivity|]. destruct (beq key [DOT]); [reflexivity|].
+    destruct (insert_w re_ok t (ksteps key) key v) as [t' r]. destruct r; cbn [snd fst failed]; try discriminate; reflexivity.
+  Qed.
+
+  Lemma insert_root_accepts key v :
+    failed (snd (insert re_ok (root : trie V) key v)) =
+    is_nil key || beq key [DOT] || negb (accept (ksteps key)).
+  Proof.
+    unfold insert. destruct (is_nil key); [reflexivity|]. destruct (beq key [DOT]); [reflexivity|]. cbn [orb].
+    pose proof (insert_root_failed_iff (ksteps key) key v) as H.
+    destruct (insert_w re_ok root (ksteps key) key v) as [t' r]. cbn [snd] in *.
+    destruct r; cbn [snd failed] in *; exact H.
+  Qed.
+
+  Lemma insert_accepts (t : trie V) key v :
+    is_nil key = false -> beq key [DOT] = false -> accept (ksteps key) = true ->
+    failed (snd (insert re_ok t key v)) = false.
+  Proof.
+    intros N D A. unfold insert. rewrite N, D.
+    pose proof (accept_not_failed (ksteps key) t key v A) as H.
+    destruct (insert_w re_ok t (ksteps key) key v) as [t' r]. cbn [snd] in *. destruct r; cbn [snd failed] in *; congruence.
+  Qed.
+End Accept.
